@@ -45,6 +45,28 @@ def run(ctx):
         fi = p.get_function('bech32.' + fn)
         with ctx.obligation('C11.REF', 'bech32.' + fn, None, fi.where) as ob:
             refcmp.compare(ob, p, ref, 'bech32', fn, same_term)
+    # "an illegal version/length combination yields no address", "strings over 90 characters" are rejected: whatever
+    # encode() returns must have been accepted by decode() (which enforces all of it, C11.REF) or, at least, have been
+    # bounded to 90 characters - independently of how encode() is otherwise written
+    fe = p.get_function('bech32.encode')
+    with ctx.obligation('C11.LIMIT', 'bech32.encode', None, fe.where) as ob:
+        names = set(mi.functions) - {'encode'}
+        summ = refcmp._summaries_for(p, 'bech32', 'encode', names)
+        ev = Evaluator(p, 'ecdsa', summaries=summ)
+        hrp, wv, wp = S('hrp', type='str'), S('witver', type='int'), S('witprog', type='bytes')
+        v, f = ev.call_function('bech32.encode', [hrp, wv, wp])
+        nl = [(cs, leaf) for cs, leaf in normal_leaves(v) if leaf != T.NONE]
+        ob.require(len(nl) >= 1, 'encode can return an address', fe.where)
+        for cs, leaf in nl:
+            known = known_at(f, cs)
+            redecoded = any(T.contains(k, lambda x: T.is_op(x, 'CALL:decode') and x[3] == leaf) for k in known
+                            if T.is_op(k, 'NOT') or T.is_op(k, 'EQ') or T.is_op(k, 'IS'))
+            bounded = any((T.is_op(k, 'LT') and k[2] == T.len_(leaf) and T.is_const(k[3]) and k[3][1] <= 91) or
+                          (T.is_op(k, 'NOT') and T.is_op(k[2], 'LT') and k[2][3] == T.len_(leaf) and T.is_const(k[2][2]) and k[2][2][1] <= 90)
+                          for k in known)
+            ob.require(redecoded or bounded, 'encode() returns a string that was neither re-validated by decode() nor bounded to 90 '
+                       'characters: with a long prefix it hands out an address that every decoder (its own included) rejects',
+                       fe.where, found=[T.show(k, maxdepth=3) for k in known][:6])
     with ctx.obligation('C11.NOEXTRA', 'bech32 module surface', None, mi.relpath) as ob:
         ob.require(set(mi.functions) >= set(FUNCS), 'the module defines every reference function', mi.relpath,
                    expected=sorted(FUNCS), found=sorted(mi.functions))
